@@ -2,6 +2,26 @@
 """Regenerate the seeded-change table of DESIGN.md section 10 from /verif/seeded/*/meta.json."""
 import json, glob, os, re
 NOTES = {
+ "C18f-fetchshare-cache-by-spelling": "missed at first: lookups ran only on the final state of each history; the lookup battery (every dotted spelling, identity compared) now runs after every operation",
+ "C06f-claimed-only-if-free": "missed at first by C06 (C09 caught it): the hand-over family was only in C09; added to C06",
+ "C05f-exitall-extends-head-in-place": "missed at first by C05 and C10: no framer was stopped while its conditional aux was running and then restarted; restart-with-running-condaux programs added",
+ "C09f-exitall-no-copy-outline": "missed at first by C09: no hierarchical aux was activated a second time; nested shared aux over 2-3 main frames added",
+ "C15f-logger-term-sentinel": "missed at first: no logger had keep with explicit cycle 0; rotate families added",
+ "C13f-frame-main-prefix-match": "missed at first: no name had a keyword as prefix/suffix; keyword-affix name family added",
+ "C03f-readied-keeps-ticking": "missed at first: no tasker was ever left READIED; R5 programs (bid ready, nobody starts it, others stop) added",
+ "C14f-resolveframe-wrong-registry": "missed at first: `in frame X in framer Y` never named a frame existing only in Y; rich scaffold added",
+ "C11f-segue-auxes-full-outline": "caught by C11; missed at first by C10/C09: the plain aux under the conditional auxes had no transitions; cycle aux added",
+ "C30f-parseline-cursor-past-cr": "missed at first by C30 (C29 caught it): responses were delivered whole; two-piece delivery at every offset added",
+ "C34f-redirect-reads-respondent-list": "missed at first: a fresh Patron per chain; a second redirected request on the same Patron added to every execution",
+ "C21f-bare-clock-need-path-baked": "missed at first by C21 (C11 caught it): clock comparisons were never evaluated inside clones; cloneclock family added",
+ "C24f-tx-quota-drops-tail": "missed at first: every configuration used bs=8096; bufsize 2 configurations added",
+ "C27f-sse-retry-ms-not-converted": "missed at first: no event-stream Patron; PatronSSE configuration (retry: 500, cut 3-4 times) added",
+ "C43f-zero-wrap-falsy-default": "missed at first: for wrap 0 the angles stayed within +-3; multiples of 45 up to +-1080, Fraction(0) wraps and the documented defaults added",
+ "C38f-tx-stuck-at-first-message": "missed at first: BFS dedupe used implementation state only, so the state after `send m2` was merged away; the reference's latest message is now part of the canonical state",
+ "C45f-selected-skips-zero-importance": "missed at first: importances were never exactly 0; zeroimp family added",
+ "C40f-packify-onebit-low-bit": "missed at first: one-bit fields only got 0/1/3/bools; even truthy and non-int values added",
+ "C36f-shared-rxbs-across-incomers": "missed at first: only the first client sent to the server; both clients now transmit distinct payloads",
+ "C41f-memo-keeps-callers-bytearray": "missed at first: every call used a fresh bytes object; second pass through one bytearray per length rewritten in place added",
  "C10e-tracehead-declaration-order": "missed at first by C10 (C05 caught it): C10's chains were always declared over-first; the same programs declared under-first added",
  "C19e-change-bulk-dict-update": "missed at first: invalid field names never travelled in positional mappings; dict/odict/Share arguments with invalid names added",
  "C20e-added-none-field-not-changed": "missed at first: environment writes only set `value`; multi-field writes that add a field (None / 1) after the mark added",
